@@ -13,13 +13,21 @@
 (* C28_Excludes / C28_Available; Probe records (a contender started after a *)
 (* kill must get the lock within a multi-second watchdog) by C28_Available. *)
 (***************************************************************************)
-EXTENDS DaemonLockProps, TraceKit
+EXTENDS DaemonLockProps, DaemonLifecycleProps, TraceKit
 
 CONSTANT Want
-VARIABLES l, fails, j, enters, done
-tvars == <<l, fails, j, enters, done>>
+VARIABLES l, fails, j, enters, daemons, ddrift, done
+tvars == <<l, fails, j, enters, daemons, ddrift, done>>
 
-Kinds == {"RaceBegin", "Lock", "Probe", "RaceEnd", "Avail"}
+Kinds == {"RaceBegin", "Lock", "Probe", "RaceEnd", "Avail", "Daemon"}
+
+\* growth: one episode of real daemons (see DaemonLifecycleProps).  Its events are replayed on the observer
+\* rules (conformance: stat_daemon_drift); only what C28 states is a verdict - the second daemon is
+\* excluded while the first is up, the lock is available once the first has ended.
+RECURSIVE Replay(_, _, _)
+Replay(a, evs, i) == IF i > Len(evs) THEN TRUE
+                     ELSE LOk(a, evs[i]) /\ Replay(LStep(a, evs[i]), evs, i + 1)
+DaemonConforms(r) == r.out.held /\ r.out.ended /\ r.out.restart /\ Replay(A0, r.out.events, 1)
 
 RecFails(i, r) ==
   IF ~(Has(r, "ev") /\ r.ev \in Kinds) THEN <<Fail(i, "C28_TraceAccepted")>>
@@ -28,6 +36,9 @@ RecFails(i, r) ==
            \o Chk(Want, i, "C28_TraceAccepted", JournalWF(j, r.who, r.what))
          [] r.ev = "Probe" -> Chk(Want, i, "C28_Available", r.ok)
          [] r.ev = "RaceEnd" -> Chk(Want, i, "C28_TraceAccepted", j.in \ j.dying = {})
+         [] r.ev = "Daemon" ->
+              Chk(Want, i, "C28_Excludes", C28_Excludes(r.out))
+           \o Chk(Want, i, "C28_Available", C28_Available(r.out))
          [] r.ev = "Avail" ->
               Chk(Want, i, "C28_Excludes", C28_Excludes(r.out))
            \o Chk(Want, i, "C28_Available", C28_Available(r.out))
@@ -38,16 +49,18 @@ NextJ(r) == IF ~(Has(r, "ev") /\ r.ev \in Kinds) THEN j
             ELSE IF r.ev = "Lock" THEN JStep(j, r.who, r.what)
             ELSE j
 
-TInit == l = 1 /\ fails = <<>> /\ j = J0 /\ enters = 0 /\ done = FALSE
+TInit == l = 1 /\ fails = <<>> /\ j = J0 /\ enters = 0 /\ daemons = 0 /\ ddrift = 0 /\ done = FALSE
 Step == /\ l <= NRec
         /\ LET r == Trace[l] IN
            /\ fails' = Cap(fails \o RecFails(l, r))
            /\ j' = NextJ(r)
            /\ enters' = enters + (IF Has(r, "what") /\ r.what = "enter" THEN 1 ELSE 0)
+           /\ daemons' = daemons + (IF Has(r, "ev") /\ r.ev = "Daemon" THEN 1 ELSE 0)
+           /\ ddrift' = ddrift + (IF Has(r, "ev") /\ r.ev = "Daemon" /\ ~DaemonConforms(r) THEN 1 ELSE 0)
         /\ l' = l + 1 /\ UNCHANGED done
 Finish == /\ l = NRec + 1 /\ ~done
-          /\ WriteResult(l - 1, fails, [stat_enters |-> enters])
-          /\ done' = TRUE /\ UNCHANGED <<l, fails, j, enters>>
+          /\ WriteResult(l - 1, fails, [stat_enters |-> enters, stat_daemon_episodes |-> daemons, stat_daemon_drift |-> ddrift])
+          /\ done' = TRUE /\ UNCHANGED <<l, fails, j, enters, daemons, ddrift>>
 TNext == Step \/ Finish
 TSpec == TInit /\ [][TNext]_tvars
 ====
